@@ -12,7 +12,7 @@ import os
 import stat as stat_
 
 from lib import impl
-from lib.core import cN, cbool, cbytes, clist, copt, ctor, vB, vL, vN, vopt
+from lib.core import cN, cbool, cbytes, clist, copt, ctor, vB, vL, vN, vopt, vset
 
 PROPERTY = "C07"
 GEN = ["check", "types", "state"]   # Gen/Check.v (own unit), Gen/PyTypes.v + Gen/State.v (State._get, C13's unit)
@@ -25,7 +25,9 @@ RULE = (
     "unprotected (0o644) so that they are really hashed; the re-checkout product: checkout of the object (file target without/with a state, or a directory "
     "target listing it) while intact, then the change, then the same checkout again on the same store directory - "
     "with the same odb object and with a re-created one; the read-only product: the same queries through a handle opened with read_only=True on the same "
-    "directory (add through it must be refused); the fault product: removal of the objects of one shard directory (the target's or the "
+    "directory (add through it must be refused); the tree-check product: dvc_data.hashfile.check(odb, tree) after a change of the tree's OWN .dir object "
+    "(or of an entry) x state entry x class; the transfer product: build() of a workspace file, a change of it, "
+    "transfer(staging, odb, ids, verify, hardlink) x copy/hardlink x prior object absent/intact/tampered; the fault product: removal of the objects of one shard directory (the target's or the "
     "bystander's) raises PermissionError, x tampers/intact x state entry x class x {check, oids_exist, checkout file "
     "without/with state, checkout dir, add(verify)}; plus seeded random histories (6-14 steps, one in five with such a fault) over add/check/oids_exist/checkout/tamper (also "
     "keeping 0o444, other modes, mtime-restoring)/plant under a wrong name/delete/hash/foreign state row/"
@@ -53,9 +55,23 @@ MODES = [0o644, 0o444, 0o600, 0o664, 0o400]
 ABSENT = "0" * 32
 
 
+def tree_listing(ents):
+    """[(name, md5 of POOL[k])] of a tree reference ["tree", [[name, k], ...]]"""
+    return [(nm, impl.md5hex(POOL[k])) for nm, k in ents]
+
+
 def oid_of(ref):
     k, suf = ref
+    if k == "tree":   # the .dir object of the directory listing suf (independent canonical encoder)
+        return impl.dir_oid(tree_listing(suf))
     return (ABSENT if k < 0 else impl.md5hex(POOL[k])) + suf
+
+
+def src_bytes(ref, sk):
+    """source contents of an add/plant item: POOL[sk], or the tree's own serialisation for sk == "self" """
+    if sk == "self":
+        return impl.canon_listing(tree_listing(ref[1]))
+    return POOL[sk]
 
 
 SHARED: dict = {}
@@ -285,11 +301,11 @@ def run_case(ctx, case):
                     R.known.add(o)
                 pre = R.snap()
                 paths = []
-                for i, (_, sk) in enumerate(items):
+                for i, (r_, sk) in enumerate(items):
                     p = os.path.join(R.src, f"s{len(ops_t)}_{i}")
                     with open(p, "wb") as f:
-                        f.write(POOL[sk])
-                    H(POOL[sk])
+                        f.write(src_bytes(r_, sk))
+                    H(src_bytes(r_, sk))
                     paths.append(p)
                 R.advance_wall_clock()
                 errs = []
@@ -301,14 +317,14 @@ def run_case(ctx, case):
                     res = ("abort", 98) if (R.fault and exc_code(exc) == 98) else ("exc", type(exc).__name__)
                 post = R.snap()
                 its = []
-                for o, (_, sk) in zip(oids, items):
+                for o, (r_, sk) in zip(oids, items):
                     st = R.stat(o)
                     if st is None:
                         R.syn += 1
-                        st = {"ino": 0, "mtime_ns": R.syn, "size": len(POOL[sk])}
+                        st = {"ino": 0, "mtime_ns": R.syn, "size": len(src_bytes(r_, sk))}
                     else:
                         R.note_wall(o)
-                    its.append("(%s, %s, %s)" % (cbytes(o), cbytes(POOL[sk]), tok_term(st)))
+                    its.append("(%s, %s, %s)" % (cbytes(o), cbytes(src_bytes(r_, sk)), tok_term(st)))
                 ops_t.append(ctor("OAdd", copt(verify, cbool), clist(its)))
                 if R.ro:
                     # add through a read_only=True handle: refused (after the pre-verification)
@@ -339,7 +355,7 @@ def run_case(ctx, case):
                 # oracle
                 judge_unharmed(pre, post, "add")
                 if eff and res[0] == "ok":
-                    for o, (_, sk) in zip(oids, items):
+                    for o, (r_, sk) in zip(oids, items):
                         p = pre[o]
                         if p["exists"] and (not p["honest"] or (R.cls == "local" and p["mode"] == 0o444 and not p["intact"])):
                             continue
@@ -347,7 +363,7 @@ def run_case(ctx, case):
                         q = post[o]
                         if q["exists"] and not q["intact"]:
                             fail("C07:verify-retained-mismatch", f"store with verify retained mismatching object {o} after add")
-                        src_ok = impl.md5hex(POOL[sk]) == o.split(".")[0]
+                        src_ok = impl.md5hex(src_bytes(r_, sk)) == o.split(".")[0]
                         kept_old = p["exists"] and p["intact"]
                         if not src_ok and not kept_old and (o, 3) not in errs:
                             fail("C07:verify-drop-not-reported", f"object {o} dropped by verification was not reported through on_error")
@@ -539,7 +555,7 @@ def run_case(ctx, case):
                 else:
                     _, ref, sk, mode = op
                     o = oid_of(ref)
-                    pattern, new, old = "replace", POOL[sk], None
+                    pattern, new, old = "replace", src_bytes(ref, sk), None
                 R.known.add(o)
                 p = R.path(o)
                 os.makedirs(os.path.dirname(p), exist_ok=True)
@@ -575,6 +591,140 @@ def run_case(ctx, case):
                     os.unlink(p)
                 ops_t.append(ctor("ODel", cbytes(o)))
                 outs.append(vL([]))
+            elif kind == "checktree":
+                # dvc_data.hashfile.check(odb, tree): every entry, then the tree's own .dir object
+                from dvc_data.hashfile import check as tree_check
+                from dvc_data.hashfile.meta import Meta
+                from dvc_data.hashfile.tree import Tree
+
+                ents = op[1]
+                tree = Tree()
+                for nm, k in ents:
+                    tree.add((nm,), Meta(), HashInfo("md5", impl.md5hex(POOL[k])))
+                tree.digest()
+                d = oid_of(["tree", ents])
+                if tree.hash_info.value != d or tree.as_bytes() != impl.canon_listing(tree_listing(ents)):
+                    fail("C07:harness:tree-encoding", "independent directory encoder disagrees with Tree")
+                seq = [impl.md5hex(POOL[k]) for _, k in ents] + [d]
+                for o in seq:
+                    R.known.add(o)
+                pre = R.snap()
+                order = []
+                orig_check = R.odb.check
+
+                def rec_check2(oid_, *a_, **kw_):
+                    order.append(oid_)
+                    return orig_check(oid_, *a_, **kw_)
+
+                R.odb.check = rec_check2
+                try:
+                    tree_check(R.odb, tree)
+                    code = 0
+                except Exception as exc:  # noqa: BLE001
+                    code = exc_code(exc)
+                finally:
+                    del R.odb.check
+                post = R.snap()
+                # the model gets the observed sequence, then what was not reached (entries, then the tree)
+                rest = [o for o in seq if o not in order]
+                ops_t.append(ctor("OCheckSeq", clist([cbytes(o) for o in order + rest])))
+                outs.append(vL([vN(1), vN(code)]))
+                judge_unharmed(pre, post, "checktree")
+                nontrivial = True
+                if code == 98:
+                    tags.add("fault:check-aborted")
+                bad = [o for o in seq if tampered(pre[o])]
+                good = [o for o in seq if pre[o]["exists"] and pre[o]["intact"] and pre[o]["honest"]]
+                if bad:
+                    tags.add("checktree:tampered" + (":own" if d in bad else ""))
+                    if code == 0:
+                        fail("C07:corrupt-accepted:checktree", f"check(odb, tree) passed although {bad} mismatch their names")
+                    if bad == [d] and len(good) == len(seq) - 1 and not R.faulty(d):
+                        if code != 3:
+                            fail("C07:corrupt-accepted:checktree", f"check(odb, tree) returned code {code} for a mismatching .dir object")
+                        if post[d]["exists"]:
+                            fail("C07:corrupt-not-deleted:checktree", f"check(odb, tree) left the mismatching .dir object {d}")
+                elif len(good) == len(seq):
+                    tags.add("checktree:intact")
+                    if code != 0:
+                        fail("C07:intact-rejected:checktree", f"check(odb, tree) failed with code {code} on intact objects")
+                    if R.cls == "local":
+                        for o in seq:
+                            if post[o]["exists"] and post[o]["mode"] != 0o444:
+                                fail("C07:intact-not-protected", f"successful check(odb, tree) left local object {o} with mode {oct(post[o]['mode'])}")
+            elif kind == "xfer":
+                # build() stages a workspace file; the file is changed; transfer(staging, odb, {id}, verify, hardlink)
+                from dvc_data.hashfile.build import build
+                from dvc_data.hashfile.transfer import transfer
+
+                _, ref, change, verify, hardlink = op
+                o = oid_of(ref)
+                R.known.add(o)
+                R.wsn += 1
+                wsf = os.path.join(R.ws, f"src{R.wsn}")
+                orig = POOL[ref[0]]
+                with open(wsf, "wb") as f:
+                    f.write(orig)
+                t = R.clock.tick()
+                os.utime(wsf, ns=(t, t))
+                staging, _, sobj = build(R.odb, wsf, localfs, "md5")
+                if sobj.hash_info.value != o:
+                    fail("C07:harness:build-oid", "build() named the staged file differently")
+                new = tamper_bytes(change, orig, POOL[(ref[0] + 1) % len(POOL)])
+                if change != "none":
+                    if change == "replace":
+                        with open(wsf + ".new", "wb") as f:
+                            f.write(new)
+                        os.replace(wsf + ".new", wsf)
+                    else:
+                        with open(wsf, "r+b") as f:
+                            f.truncate(0)
+                            f.write(new)
+                    t = R.clock.tick()
+                    os.utime(wsf, ns=(t, t))
+                H(new)
+                pre = R.snap()
+                R.advance_wall_clock()
+                try:
+                    res = transfer(staging, R.odb, {sobj.hash_info}, verify=verify, hardlink=hardlink)
+                    tr, fl = sorted(h.value for h in res.transferred), sorted(h.value for h in res.failed)
+                    code = 0
+                except Exception as exc:  # noqa: BLE001
+                    code, tr, fl = exc_code(exc), [], []
+                post = R.snap()
+                st = R.stat(o)
+                if st is None:
+                    if hardlink:
+                        s_ = os.stat(wsf)
+                        st = {"ino": s_.st_ino, "mtime_ns": s_.st_mtime_ns, "size": s_.st_size}
+                    else:
+                        R.syn += 1
+                        st = {"ino": 0, "mtime_ns": R.syn, "size": len(new)}
+                else:
+                    R.note_wall(o)
+                ops_t.append(ctor("OXfer", cbool(verify), clist(["(%s, %s, %s)" % (cbytes(o), cbytes(new), tok_term(st))])))
+                if code == 0:
+                    outs.append(vL([vN(7), vset(tr), vset(fl)]))
+                elif R.fault and code == 98:
+                    outs.append(ABORT)
+                    tags.add("fault:xfer-aborted")
+                else:
+                    outs.append(vL([vN(99)]))
+                    fail("C07:transfer-raised", f"transfer raised (code {code})")
+                tags.add("xfer:" + ("verify" if verify else "plain") + ("/hardlink" if hardlink else "/copy"))
+                judge_unharmed(pre, post, "transfer")
+                p = pre[o]
+                if verify and code == 0 and not (p["exists"] and (not p["honest"] or (R.cls == "local" and p["mode"] == 0o444 and not p["intact"]))) \
+                        and not (R.cls == "base" and p["exists"]):
+                    nontrivial = True
+                    q = post[o]
+                    if q["exists"] and not q["intact"]:
+                        fail("C07:verify-retained-mismatch:transfer", f"verifying transfer (hardlink={hardlink}) retained mismatching object {o}")
+                    src_ok = impl.md5hex(new) == o.split(".")[0]
+                    if not src_ok and not (p["exists"] and p["intact"]):
+                        tags.add("xfer:corrupt-source")
+                        if o not in fl or o in tr:
+                            fail("C07:verify-drop-not-reported:transfer", f"corrupt source {o}: transferred={tr} failed={fl}")
             elif kind == "hash":
                 o = oid_of(op[1])
                 R.known.add(o)
@@ -718,6 +868,42 @@ def product_cases(full=True):
                                 ["check", T], ["add", True, [[T, 0], [O, 4]]]]
                     out.append({"cls": cls, "state": entry != "noop", "verify": False, "ops": ops,
                                 "tag": f"ro:{pattern}/{entry}/{query}"})
+    # the integrity check of a directory object: dvc_data.hashfile.check(odb, tree); the changed object
+    # is the tree's OWN .dir object (plus controls where it is an entry)
+    TE = [["t", 0], ["b", 1]]
+    D = ["tree", TE]
+    tchanges = [("append", 0o644), ("truncate", 0o644), ("rewrite", 0o644), ("replace", 0o644), ("empty", 0o644),
+                ("none", None), ("touch", 0o644), ("chmod", 0o644)]
+    for cls in ("local", "base"):
+        for pattern, mode in tchanges:
+            for entry in (("noop", "wiped", "warm", "stale") if full else ("noop", "warm")):
+                for victim in ((D, T) if (full or pattern in ("append", "none")) else (D,)):
+                    ops = [["add", None, [[T, 0], [B, 1], [D, "self"]]]]
+                    if pattern != "none":
+                        ops.append(["tamper", victim, pattern, mode, 3])
+                    if entry == "wiped":
+                        ops.append(["dropstate"])
+                    elif entry == "warm":
+                        ops.append(["hash", victim])
+                    ops += [["checktree", TE], ["check", D], ["checktree", TE]]
+                    out.append({"cls": cls, "state": entry != "noop", "verify": False, "ops": ops,
+                                "tag": f"tree:{pattern}/{entry}/{'own' if victim is D else 'entry'}"})
+    # transfer(staging, odb, ids, verify, hardlink) of a workspace file changed after build()
+    for cls in ("local", "base"):
+        for change in ("none", "append", "truncate", "rewrite", "replace", "empty"):
+            for hardlink in (False, True):
+                for verify in ((True, False) if (full or change in ("none", "append")) else (True,)):
+                    for prior in (("absent", "intact", "tampered") if full else ("absent", "tampered")):
+                        for st_on in ((True, False) if full else (True,)):
+                            ops = [["add", None, [[B, 1]]]]
+                            if prior != "absent":
+                                ops.append(["add", None, [[T, 0]]])
+                            if prior == "tampered":
+                                ops.append(["tamper", T, "append", 0o644, 3])
+                            ops += [["xfer", T, change, verify, hardlink], ["check", T], ["exist", [T, B]],
+                                    ["checkout", T]]
+                            out.append({"cls": cls, "state": st_on, "verify": False, "ops": ops,
+                                        "tag": f"xfer:{change}/{'hl' if hardlink else 'cp'}/{'V' if verify else '-'}/{prior}"})
     # fault stream: removing the objects of one shard directory fails with PermissionError; a query
     # on a tampered object of that shard must still not serve it (any error is an acceptable refusal)
     DIRQ = [["t", T], ["b", B]]
@@ -806,8 +992,11 @@ def random_case(rng):
         elif r < 0.50:
             ks = rng.sample(range(5), rng.randint(1, 3))
             ops.append(["checkoutdir", [[f"f{k}", [k, ""]] for k in ks]])
-        elif r < 0.51:
+        elif r < 0.505:
             ops.append(["reopen"])
+        elif r < 0.51:
+            ops.append(["xfer", [rng.randrange(5), ""], rng.choice(["none", "append", "truncate", "rewrite", "replace", "empty"]),
+                        rng.random() < 0.7, rng.random() < 0.5])
         elif r < 0.52:
             ops.append(["handle", rng.choice(["ro", "ro", "rw"])])
         elif r < 0.74:
@@ -843,6 +1032,20 @@ def random_case(rng):
         if rng.random() < 0.3:
             motif.append(rng.choice([["hash", tgt], ["dropstate"]]))
         motif.append(look())
+        at = rng.randint(1, len(ops))
+        ops[at:at] = motif
+    if rng.random() < 0.3:
+        ks = sorted(rng.sample(range(5), rng.randint(1, 2)))
+        te = [[f"e{k}", k] for k in ks]
+        dref = ["tree", te]
+        motif = [["add", rng.choice([None, True]), [[[k, ""], k] for k in ks] + [[dref, "self"]]]]
+        if rng.random() < 0.7:
+            motif.append(["tamper", rng.choice([dref, dref, [ks[0], ""]]),
+                          rng.choice(["append", "truncate", "rewrite", "replace", "empty", "touch", "chmod"]),
+                          rng.choice([0o644, 0o644, 0o600, 0o444]), rng.randrange(len(POOL))])
+        if rng.random() < 0.3:
+            motif.append(rng.choice([["hash", dref], ["dropstate"], ["handle", "ro"]]))
+        motif.append(["checktree", te])
         at = rng.randint(1, len(ops))
         ops[at:at] = motif
     c = {"cls": cls, "state": rng.random() < 0.85, "verify": rng.random() < 0.3, "ops": ops, "tag": "random"}
@@ -890,7 +1093,8 @@ def run(ctx):
     need = {"check:tampered", "check:intact", "exist:tampered", "exist:intact", "checkout:tampered",
             "checkout:intact", "checkoutdir:tampered", "checkoutdir:intact", "env:reopen", "add:verify",
             "fault:check-aborted", "fault:exist-aborted", "fault:checkout-aborted", "fault:checkoutdir-aborted",
-            "fault:add-aborted", "env:handle:ro", "ro:add"}
+            "fault:add-aborted", "env:handle:ro", "ro:add", "checktree:tampered:own", "checktree:intact",
+            "xfer:verify/hardlink", "xfer:verify/copy", "xfer:corrupt-source"}
     ctx.obligation("generator:coverage", need <= seen_tags, "missing: " + ", ".join(sorted(need - seen_tags)))
     if not need <= seen_tags:
         ctx.broken("correspondence", "generator:coverage", "the generators no longer reach " + ", ".join(sorted(need - seen_tags)))
